@@ -32,6 +32,12 @@ Accept          == Is("Accept")          /\ AcceptOK(rom, s, E) /\ s' = AcceptNx
 (* the export was refused by SPSDK: only an invalid input may be refused, and nothing follows *)
 ExportRefused   == Is("ExportRefused") /\ s.st = "Hdr" /\ s.ci = 0 /\ l = Len(T) /\ MustRefuse(rom)
                    /\ s' = [s EXCEPT !.st = "Refused"] /\ Adv
+(* an invalid input that ends in a non-SPSDK exception did not produce an image either *)
+ExportCrashed   == Is("ExportCrashed") /\ s.st = "Hdr" /\ s.ci = 0 /\ l = Len(T) /\ MustRefuse(rom)
+                   /\ s' = [s EXCEPT !.st = "Refused"] /\ Adv
+(* SPSDK exported an image of an invalid input (decided in its export trace): its own verifier has to report the file *)
+InvalidExported == Is("InvalidExported") /\ s.st = "Hdr" /\ s.ci = 0 /\ l = 1 /\ MustRefuse(rom)
+                   /\ s' = [s EXCEPT !.st = "Tampered"] /\ Adv
 (* third observer on the accepted export *)
 SpsdkRoundTrip  == /\ Is("SpsdkRoundTrip") /\ s.st = "Accepted"
                    /\ E.crash = "" /\ E.parseOk /\ E.equalObj /\ E.reexportEq /\ E.verifyClean
@@ -47,7 +53,7 @@ SpsdkTamperVerdict == /\ Is("SpsdkTamperVerdict") /\ s.st = "Tampered"
                       /\ E.crash = "" /\ E.reported
                       /\ s' = [s EXCEPT !.st = "Observed"] /\ Adv
 TNext == ContainerHeader \/ ImageEntry \/ SignatureBlock \/ SrkTable \/ VerifySignature \/ Blob \/ ContainerEnd \/ Accept
-         \/ ExportRefused \/ Resume \/ SpsdkRoundTrip \/ Tamper \/ SpsdkTamperVerdict
+         \/ ExportRefused \/ ExportCrashed \/ InvalidExported \/ Resume \/ SpsdkRoundTrip \/ Tamper \/ SpsdkTamperVerdict
 Constr == IF TLCGet(tid) < l THEN TLCSet(tid, l) ELSE TRUE
 Post == \A i \in 1..Len(Traces) :
           \/ TLCGet(i) - 1 = Len(Traces[i].ev)
